@@ -368,7 +368,12 @@ def run(scn_wrap, docs_out):
         if g == 1 and deferred is not None:
             build_method(deferred)
             deferred = None
-        if scn.get('plan') == 'shrink' and g == 1:
+        if scn.get('plan') == 'swap' and g == 1:
+            # every exposed name is now served by another function: a fresh, parameterless, undocumented, unannotated one
+            registry = {'': [], '/api': []}
+            for k_, m_ in order:
+                registry[k_].append(Method(make_functions()['f4'], m_.name))
+        elif scn.get('plan') == 'shrink' and g == 1:
             k0, m0 = order[0]
             registry = {'': [], '/api': []}
             registry[k0].append(m0)
@@ -392,7 +397,11 @@ def run(scn_wrap, docs_out):
         except (TypeError, ValueError):
             ev.append({'ev': 'Generate', 'entries': [], 'json_ok': False, 'meta_ok': False, 'refs_closed': False, 'heap_same': heap_same, 'fresh_same': fresh_same})
             continue
-        entries = project_openrpc(doc, scn) if is_rpc else project_openapi(doc, scn, path)
+        scn_g = scn
+        if scn.get('plan') == 'swap' and g == 1:
+            # the projection is relative to what THIS generation's registry holds: unannotated functions under the same names
+            scn_g = dict(scn, methods=[dict(m, meta='none') for m in scn['methods']])
+        entries = project_openrpc(doc, scn_g) if is_rpc else project_openapi(doc, scn_g, path)
         e = {'ev': 'Generate', 'entries': entries, 'json_ok': json_ok, 'meta_ok': None, 'refs_closed': None, 'heap_same': heap_same, 'fresh_same': fresh_same}
         docs_out.append((e, {'kind': scn['kind'], 'doc': doc}))
         ev.append(e)
